@@ -33,7 +33,9 @@ EXHAUSTIVE = True
 
 
 def bounds(tier):
-    return {'script_shapes': '2 x 2 x 3 x 2 x 2 x 2 x 2 x 2 x 2 = 768 (sources 1-2, static library, 0-2 '
+    return {'script_shapes': ('one source: all 384 shapes; two sources: the 48 shapes without and with all of '
+                              'includes/prebuilt/versioned/pch; of ' if tier == 'quick' else '') +
+                             '2 x 2 x 3 x 2 x 2 x 2 x 2 x 2 x 2 = 768 (sources 1-2, static library, 0-2 '
                              'extra deps on link/generate, 0-1 on compile, 1-2 generator outputs, alias, '
                              'header file via includes=, pre-existing library, versioned shared library, '
                              'precompiled header; x2)',
@@ -47,6 +49,8 @@ def obligations(tier, kf):
     for nf in (1, 2):
         for hl in (0, 1):
             for hx in range(16):
+                if q and nf == 2 and hx not in (0, 15):
+                    continue       # two sources: only the plain and the all-features shape
                 obs.append(Ob('e_edges', {'NFILES': nf, 'HASLIB': hl, 'HX': hx}, 1500,
                               desc='script shapes with %d sources, library=%d, includes/prebuilt/'
                                    'versioned=%d' % (nf, hl, hx)))
